@@ -12,6 +12,7 @@ nested to any depth.  `Nested c cs` = the caveat `c` occurs in `cs` at top level
 action, any request type); likewise for organizations and clusters.
 -/
 import Macaroon.Lemmas.Scopes
+import Macaroon.Lemmas.ScopesOrder
 
 namespace Macaroon.Props.C17
 open Macaroon Macaroon.Flyio Macaroon.Lemmas
@@ -111,6 +112,39 @@ theorem repaired_clusterScope_on_f11_witness :
     Flyio.validate, cnt, ResSet.prohibitsStr, ResSet.prohibits, ResSet.mixedWildcard, ResSet.matching,
     ResSet.perm, Action.subset]
 
+/-! ### order: sorted results, permuted caveat sets -/
+
+/-- the lists the helpers return are strictly ascending in Go's order (`<` on `uint64`, bytewise on
+strings) — hence without duplicates and independent of Go's map iteration order -/
+theorem scope_sorted (cs : List (Cav B)) :
+    (∀ L, appScope cs = some L → L.Pairwise fun a b => a < b) ∧
+    (∀ L, clusterScope cs = some L → L.Pairwise fun a b => Bytes.lt a b = true) ∧
+    (∀ act s n o L, appsAllowing cs act s n = .ok (o, some L) → L.Pairwise fun a b => a < b) := by
+  refine ⟨fun L h => ?_, fun L h => clusterScope_sorted cs L h, fun act s n o L h => ?_⟩
+  · exact (appScope_sorted cs L h).imp (by intro a b hab; simpa [ltU64] using hab)
+  · exact (appsAllowing_sorted cs act s n o L h).imp (by intro a b hab; simpa [ltU64] using hab)
+
+/-- the order in which the caveats stand in the set does not matter for `AppScope` and
+`ClusterScope` (nor, hence, for where a caveat is nested relative to its siblings) -/
+theorem scope_perm (cs cs' : List (Cav B)) (h : cs.Perm cs') :
+    appScope cs = appScope cs' ∧ clusterScope cs = clusterScope cs' :=
+  ⟨appScope_perm h, clusterScope_perm h⟩
+
+/-- `OrganizationScope` answers with the id of the FIRST organization caveat found, so its SUCCESS
+can depend on the order (boundary example below: a wildcard caveat in front of a specific one makes
+it fail; an error claims nothing); but two successful answers on permuted sets are the same id -/
+theorem orgScope_perm_agree (cs cs' : List (Cav B)) (h : cs.Perm cs') (o o' : UInt64)
+    (h1 : organizationScope cs = .ok o) (h2 : organizationScope cs' = .ok o') : o = o' :=
+  Lemmas.orgScope_perm_agree h o o' h1 h2
+
+/-- what the partial clause "every id returned clears" amounts to for `OrganizationScope`: the
+request "organization `o`, no action" clears the ORGANIZATION caveats of the set (found at any depth)
+— the helper deliberately disregards every other caveat -/
+theorem orgScope_relative (cs : List (Cav B)) (o : UInt64) (h : organizationScope cs = .ok o) :
+    validate (getCaveats isOrg cs) [(orgReq o).toAccess 0 0] = [] := by
+  obtain ⟨c, rest, heq, _, hv⟩ := orgScope_ok cs o h
+  rw [heq]; exact hv
+
 /-! ### apps allowing an action -/
 
 /-- `AppsAllowing cs action` at wall-clock instant `(s, n)` answered `(o, r)` without error.  Then
@@ -192,6 +226,13 @@ example : expiration ([.validityWindow 0 100, .ifPresent false (.cons (.validity
     = (50, 0) := by decide
 example : expiration ([.validityWindow 0 9223372036854775807] : List (Cav Bytes)) = (maxTimeSec, maxTimeNsec) := by decide
 example : GoTime.after 51 0 50 0 = true ∧ GoTime.after 51 0 maxTimeSec maxTimeNsec = false := by decide
+-- order: a permutation (hypothesis of `scope_perm` / `orgScope_perm_agree`), and the boundary of the
+-- latter: with the wildcard organization caveat in front the helper fails, behind it succeeds
+example : ([.apps [(1, 31)], .organization 5 31] : List (Cav Bytes)).Perm [.organization 5 31, .apps [(1, 31)]] :=
+  List.Perm.swap _ _ _
+example : organizationScope ([.organization 5 31, .organization 0 31] : List (Cav Bytes)) = .ok 5 ∧
+    organizationScope ([.organization 0 31, .organization 5 31] : List (Cav Bytes)) = .error [.forResource] := ⟨rfl, rfl⟩
+example : appScope ([.apps [(3, 31), (1, 31), (2, 1)]] : List (Cav Bytes)) = some [1, 2, 3] := by decide
 
 end Macaroon.Props.C17
 
@@ -208,3 +249,7 @@ end Macaroon.Props.C17
 #print axioms Macaroon.Props.C17.expiration_sound
 #print axioms Macaroon.Props.C17.verifiedExpiration_sound
 #print axioms Macaroon.Props.C17.window_in_conditional_always_applies
+#print axioms Macaroon.Props.C17.scope_sorted
+#print axioms Macaroon.Props.C17.scope_perm
+#print axioms Macaroon.Props.C17.orgScope_perm_agree
+#print axioms Macaroon.Props.C17.orgScope_relative
